@@ -1,15 +1,17 @@
 #!/bin/bash
-# Applies every stored seed to /repo in turn (git apply / git checkout -- .), runs the
-# quick check of its property (plus extra checks listed in seeded/<seed>/also.txt),
-# and records the outcome in seeded/detection.json. Never commits anything in /repo.
+# Applies stored seeds to /repo in turn (git apply / git checkout -- .), runs the
+# quick check of each seed's property (plus extra checks listed in
+# seeded/<seed>/also.txt), and records the outcome in seeded/detection.json
+# (entries of seeds not run are kept). Never commits anything in /repo.
 # Must not run concurrently with other checks (it changes /repo's working tree).
+# usage: seed_matrix.sh [seed ...]      (default: every stored seed)
 cd "$(dirname "$0")/.."
 out=seeded/detection.json
-echo "{" > $out.tmp
-first=1
-for d in seeded/*/; do
-  s=$(basename $d); [ -f $d/patch.diff ] || continue
-  only=${1:-}; if [ -n "$only" ] && [ "$only" != "$s" ]; then continue; fi
+[ -f $out ] || echo "{}" > $out
+seeds="$*"
+[ -n "$seeds" ] || seeds=$(for d in seeded/*/; do [ -f $d/patch.diff ] && basename $d; done)
+for s in $seeds; do
+  d=seeded/$s; [ -f $d/patch.diff ] || { echo "$s: no patch"; continue; }
   prop=${s%%-*}
   checks="$prop"; [ -f $d/also.txt ] && checks="$checks $(cat $d/also.txt)"
   if ! git -C /repo apply --check $PWD/$d/patch.diff 2>/dev/null; then res="\"patch-does-not-apply\""; else
@@ -24,9 +26,11 @@ for d in seeded/*/; do
     git -C /repo checkout -- .
     res="{${res%,}}"
   fi
-  [ $first = 1 ] || echo "," >> $out.tmp; first=0
-  echo "\"$s\": $res" >> $out.tmp
+  python3 - "$out" "$s" "$res" <<'PY'
+import json,sys
+p,s,res=sys.argv[1:4]
+d=json.load(open(p)); d[s]=json.loads(res)
+json.dump(dict(sorted(d.items())),open(p,'w'),indent=1)
+PY
   echo "$s $res"
 done
-echo "}" >> $out.tmp
-if [ -z "${1:-}" ]; then mv $out.tmp $out; else rm $out.tmp; fi
